@@ -355,6 +355,12 @@ def c04_transferTrue (t : Tr) : Bool :=
      | _, _ => !isConvert t.op)
   | _ => true
 
+/-- a conversion that went through saw every one of its EVM calls succeed: a call that returned an error or reverted —
+at any internal step, with or without a revert reason — must make the conversion unsuccessful -/
+def c04_internalFailureRejects (t : Tr) : Bool :=
+  if !(isConvert t.op && t.ok && t.resp == .converted) then true
+  else t.answers.all (fun a => a.status == .ok)
+
 /-- converting back restores exactly the original holdings on both ledgers (honest token) -/
 def c04_roundtrip (t : Tr) : Bool :=
   match t.prev, t.op with
@@ -432,7 +438,7 @@ def monitors : List (String × String × (Tr → Bool)) :=
    ("C04", "rejected_unchanged", rejectedUnchanged), ("C04", "success_exact_bank", c04_successExactBank),
    ("C04", "success_exact_reported", c04_successExactReported), ("C04", "success_exact_token", c04_successExactToken),
    ("C04", "no_approval", c04_noApproval), ("C04", "transfer_true", c04_transferTrue),
-   ("C04", "roundtrip", c04_roundtrip),
+   ("C04", "roundtrip", c04_roundtrip), ("C04", "internal_failure_rejects", c04_internalFailureRejects),
    ("C03", "native_backing_exact", c03_nativeExact), ("C03", "native_backing_ge", c03_nativeGe),
    ("C03", "external_backing", c03_external), ("C03", "rejected_unchanged", rejectedUnchanged)]
 
